@@ -39,7 +39,7 @@ AXES = {
            "tm-spheroid", "tm-cylinder", "mielens", "abmielens", "mielens2",
            "lens-mie", "auto"],
     "det": ["g3x3", "g1x1", "g1x4", "g4x5a", "g3x3o", "p3", "p4z0", "g2ch",
-            "g2chr", "g3x2z2"],
+            "g2chr", "g3x2z2", "g3x3-f32", "g3x3-u8"],
     "pol": [(1, 0), (0, 1), (1, 1), (0.6, -0.8), (3, 4), (1, 1, 0),
             (0.70711, 0.70711), (-0.5, -0.86603)],
     "alpha": [1.0, 0.0, 0.5, 1.7, -1.0],
@@ -106,6 +106,13 @@ def _detector(name):
     if name in ("g2ch", "g2chr"):
         return H.det_grid(3, 0.1, extra_dims={"illumination": ["red",
                                                                 "green"]})
+    if name in ("g3x3-f32", "g3x3-u8"):
+        # a recorded camera frame used as the detector: its data are single
+        # precision / 8-bit counts (the calculation must not inherit that)
+        import holopy as hp
+        dt = "float32" if name.endswith("f32") else "uint8"
+        frame = (np.arange(9).reshape(3, 3) * 7 + 3).astype(dt)
+        return hp.core.metadata.data_grid(frame, spacing=0.1, name="frame")
     return H.DETS[name]()
 
 
